@@ -625,8 +625,15 @@ impl<T: HCfg> World<T> {
                             }
                         }
                     })));
+                    // `wait_default`: the variant without argument (one frame duration at the session's fps;
+                    // the plan states the equivalent number of milliseconds in `wait`)
+                    let dflt = s.get("wait_default").and_then(|v| v.as_bool()).unwrap_or(false);
                     let r = catch_unwind(AssertUnwindSafe(|| {
-                        sess.advance_frame_with_wait_timeout(std::time::Duration::from_millis(wms))
+                        if dflt {
+                            sess.advance_frame_with_wait()
+                        } else {
+                            sess.advance_frame_with_wait_timeout(std::time::Duration::from_millis(wms))
+                        }
                     }));
                     instant::verif_set_yield(None);
                     line.insert("wait".into(), json!(wms));
